@@ -4,6 +4,7 @@
 From Coq Require Import List ZArith Bool Permutation.
 From RtoscV Require Ports.NameModel.
 From RtoscV Require Import Save.TopoModel Save.KahnProofs Save.TopoProofs Save.TopoEdges Save.TopoPerm Save.TopoTree Save.TopoRegress.
+From RtoscV Require Import Save.SaveModel Save.SaveProofs Save.RoundFull Save.CommuteProofs Save.PermApp.
 Import ListNotations.
 
 (* The sort as coded (counters, queue seeded in file order, fuel = number of
@@ -38,9 +39,9 @@ Proof. exact linext_unique. Qed.
 
 (* The edges of a file depend only on the set of addresses that have a line,
    not on where the lines stand. *)
-Theorem C13_same_edges : forall A apropos fuel (ms1 ms2 : list (message A)) cur,
+Theorem C13_same_edges : forall A apropos fuel (ms1 ms2 : list (message A)) orig cur,
   Permutation ms1 ms2 ->
-  scan_deps apropos (map_keys A ms1) fuel cur = scan_deps apropos (map_keys A ms2) fuel cur.
+  scan_deps apropos (map_keys A ms1) fuel orig cur = scan_deps apropos (map_keys A ms2) fuel orig cur.
 Proof. exact same_edges. Qed.
 
 (* Every "enabled by" / "depends" / "default depends" reference - of the port a
@@ -54,18 +55,18 @@ Theorem C13_edges_complete : forall A apropos fuel (ms : list (message A)) ps k 
   In ic (flagged (ancestors k)) ->
   apropos (if fst ic then snd ic ++ [slash] else snd ic) = Some m ->
   In e (dep_values m) -> rel2abs e (snd ic) = Some t ->
-  index_of A t ms = Some i -> has_key (map_keys A ms) t = true ->
+  index_of A t ms = Some i -> has_key (map_keys A ms) t = true -> t <> k ->
   In (i, o) ps.
 Proof. exact edges_complete. Qed.
 
-(* PERMUTATION INVARIANCE for the model's loader: two files with the same lines
+(* The same for ANY message semantics (generic in [apply]): two files with the same lines
    (distinct addresses, acyclic edges) are handed out in orders that give the
    same final state and the same count, for every initial state.
    _partial: the one remaining side condition is that two messages neither of
    which waits for the other commute; it is NOT yet discharged for C12's
    abstract application (there a message writes its own port, the dependents of
    a selector and the sub-tree of a switch - all of which wait for it). *)
-Theorem C13_perm_invariant_partial :
+Theorem C13_perm_invariant_generic_partial :
   forall A apropos fuel (S : Type) (apply : message A -> S -> S) (ms1 ms2 : list (message A)) ps1 ps2 d,
     NoDup (map fst ms1) -> Permutation ms1 ms2 ->
     pushes A apropos fuel ms1 = Some ps1 -> pushes A apropos fuel ms2 = Some ps2 ->
@@ -80,6 +81,40 @@ Theorem C13_perm_invariant_partial :
                = run _ _ apply (map (fun i => nth i ms2 d) o2) st.
 Proof. exact perm_invariant_load. Qed.
 
+(* PERMUTATION INVARIANCE for the savefiles of C12's abstract application
+   (preset selectors, switches with pointer sub-trees, arrays, any values on the
+   lines): two files with the same lines - distinct addresses, acyclic edges - are
+   handed out in orders under which the loader's loop (apply_all: stops at the
+   first line no port accepts) accepts the same (all or not all) and, when all are
+   accepted, leaves the same state; the counts agree.  The commutation of two
+   messages neither of which waits for the other is PROVED (C13_messages_commute),
+   no longer a hypothesis.  Hypotheses: the application is well formed
+   (RoundFull.wf_app) and the metadata the lookup returns declares its
+   dependencies ([declared]: the selector of a port / the switch above it is
+   named by an entry of the port's or a parent's "default depends" / "enabled by"). *)
+Theorem C13_perm_invariant : forall a apropos fuel, wf_app a -> declared a apropos ->
+  forall (ls1 ls2 : list line) ps1 ps2 d,
+    NoDup (map l_path ls1) -> Permutation ls1 ls2 ->
+    pushes line apropos fuel (msgs ls1) = Some ps1 -> pushes line apropos fuel (msgs ls2) = Some ps2 ->
+    ranked ps1 -> ranked ps2 ->
+    exists o1 o2,
+      load_order apropos fuel (msgs ls1) = Some o1 /\ load_order apropos fuel (msgs ls2) = Some o2 /\
+      length o1 = length o2 /\
+      forall s0, length s0 = length a ->
+        let r1 := apply_all a (map snd (map (fun i => nth i (msgs ls1) d) o1)) s0 in
+        let r2 := apply_all a (map snd (map (fun i => nth i (msgs ls2) d) o2)) s0 in
+        snd r1 = snd r2 /\ (snd r1 = true -> fst r1 = fst r2).
+Proof. exact perm_invariant_loader. Qed.
+
+(* "a parameter message writes its own port and reads only its declared
+   dependencies": lines for different ports neither of which has to precede the
+   other (selector / switch) commute, acceptance included *)
+Theorem C13_messages_commute : forall a, wf_app a -> forall x y o, okstate a o ->
+  (forall i vs j ws, line_target a x = Some (i, vs) -> line_target a y = Some (j, ws) ->
+                     i <> j /\ ~ must_precede a i j /\ ~ must_precede a j i) ->
+  step_line a x (step_line a y o) = step_line a y (step_line a x o).
+Proof. exact lines_commute. Qed.
+
 (* C13_topo with the lookup instantiated by the models of the code scan_deps
    calls: Ports::apropos (C18) on a port tree, MetaContainer::operator[] (C17) *)
 Theorem C13_topo_tree : forall A (root : list NameModel.port) fuel (ms : list (message A)) ps,
@@ -93,7 +128,7 @@ Proof. exact load_order_topo_tree. Qed.
    produced no edge *)
 Theorem C13_edge_of_enumerated_subtree_before_fix_refuted :
   exists apropos keys cur,
-    scan_deps apropos keys 8 cur = Some [p_on] /\ scan_deps_old apropos keys 8 cur = Some [].
+    scan_deps apropos keys 8 cur cur = Some [p_on] /\ scan_deps_old apropos keys 8 cur = Some [].
 Proof. exact edge_of_enumerated_subtree_before_fix_refuted. Qed.
 
 (* regression: before the fix the empty rest behind rDepends' trailing ',' was
@@ -102,7 +137,7 @@ Proof. exact edge_of_enumerated_subtree_before_fix_refuted. Qed.
 Theorem C13_trailing_comma_entry_before_fix_refuted :
   entries_old [113; 44]%Z = [[113; 44]; []]%Z /\ entries [113; 44]%Z = [[113; 44]]%Z /\
   exists apropos cur,
-    scan_deps apropos [] 40 cur = Some [] /\ scan_deps_old2 apropos [] 40 cur = None.
+    scan_deps apropos [] 40 cur cur = Some [] /\ scan_deps_old2 apropos [] 40 cur = None.
 Proof. exact trailing_comma_entry_before_fix_refuted. Qed.
 
 (* non-vacuity: "/b" declares default depends = "a"; file order /b, /a;
